@@ -63,7 +63,7 @@ func retryScenario(maxCalls int) func() {
 			go func() {
 				vrt.Log("cancel-call")
 				cancel()
-				vrt.Log("cancelled")
+				vrt.Log("cancelled", int(vrt.Elapsed()))
 				close(done)
 			}()
 		} else {
@@ -198,7 +198,7 @@ func init() {
 		Desc: "40 plain errors then success: requested random range capped at 2^31", Run: retryLong, Check: retryCheck})
 	vrt.Register(&vrt.Scenario{Name: "R-calc", Props: []string{"C18"}, Quick: 1, Thorough: 1,
 		Desc: "calcExponentialRetry for every c in 0..40 x 4 rates x boundary random answers", Opts: vrt.Options{RandAll: true}, Run: retryCalc, Check: retryCalcCheck})
-	vrt.Register(&vrt.Scenario{Name: "A-attempt", Props: []string{"C20", "C11:race", "C12:goroutine-leak"}, Quick: 2, Thorough: 3,
+	vrt.Register(&vrt.Scenario{Name: "A-attempt", Props: []string{"C20", "C11:race", "C12:goroutine-leak"}, Quick: 3, Thorough: 4,
 		Desc: "LinearAttempt: count 1..3 x receiver prompt/slow/absent x cancellation never/before/concurrent (placed by the scheduler, optionally after 15ms), ticks as virtual-time events",
 		Opts: vrt.Options{MaxTimerFires: 16}, Run: attemptScenario, Check: attemptCheck})
 }
